@@ -542,6 +542,9 @@ pub fn run_c11(ctx: &Ctx) -> i32 {
     coverage["transitions"] = json!(coverage["transitions"].as_u64().unwrap_or(0) + coll["steps"].as_u64().unwrap_or(0));
     coverage["evaluations"] = json!(coverage["evaluations"].as_u64().unwrap_or(0) + coll["steps"].as_u64().unwrap_or(0));
     coverage["colliding_address_generator"] = coll;
+    let keeper_cases = configured_keeper_stage(ctx, ctx.tier.pick(3, 5));
+    coverage["transitions"] = json!(coverage["transitions"].as_u64().unwrap_or(0) + keeper_cases);
+    coverage["keeper_configured_after_codes_were_stored: checks"] = json!(keeper_cases);
     ctx.finish(coverage, assumptions)
 }
 
@@ -735,6 +738,92 @@ enum POp {
 /// contract at an address no existing contract has, its record is what was supplied; a rejected
 /// one leaves everything unchanged; and nothing that existed before (records and storage of the
 /// live contracts) is ever overwritten by an instantiation.
+/// A keeper that is configured AFTER codes were stored in it: every sequence (up to `len`) of
+/// keeper-level steps {store_code, store_code_with_id(5), duplicate_code(1), with_checksum_generator,
+/// with_address_generator}, then the keeper is handed to the builder. Every id a successful store
+/// returned is distinct, still answers code-info queries and can be instantiated in the App, and
+/// the App's next automatic id is one more than the largest.
+fn configured_keeper_stage(ctx: &Ctx, len: usize) -> u64 {
+    use cw_multi_test::Wasm;
+    struct FixedChecksums;
+    impl cw_multi_test::ChecksumGenerator for FixedChecksums {
+        fn checksum(&self, _creator: &Addr, code_id: u64) -> cosmwasm_std::Checksum {
+            cosmwasm_std::Checksum::generate(format!("fixed-{}", code_id).as_bytes())
+        }
+    }
+    let api = MockApi::default();
+    let creator = api.addr_make("creator");
+    let steps = ["store_code", "store_code_with_id(5)", "duplicate_code(1)", "with_checksum_generator", "with_address_generator"];
+    let mut seqs: Vec<Vec<usize>> = vec![vec![]];
+    let mut layer: Vec<Vec<usize>> = vec![vec![]];
+    for _ in 0..len {
+        let mut next = vec![];
+        for sq in &layer {
+            for i in 0..steps.len() {
+                let mut x = sq.clone();
+                x.push(i);
+                next.push(x);
+            }
+        }
+        seqs.extend(next.iter().cloned());
+        layer = next;
+    }
+    let mut n = 0u64;
+    for sq in &seqs {
+        let names: Vec<&str> = sq.iter().map(|i| steps[*i]).collect();
+        let case = |what: &str, extra: Value| json!({"engine": "registry-configured-keeper", "keeper_steps": names, "what": what, "detail": extra});
+        let mut keeper: WasmKeeper<Empty, Empty> = WasmKeeper::new();
+        let mut ids: Vec<u64> = vec![];
+        let r = catch(|| {
+            for i in sq {
+                match i {
+                    0 => ids.push(keeper.store_code(creator.clone(), Box::new(Puppet { tag: 1 }))),
+                    1 => {
+                        if let Ok(id) = keeper.store_code_with_id(creator.clone(), 5, Box::new(Puppet { tag: 1 })) {
+                            ids.push(id)
+                        }
+                    }
+                    2 => {
+                        if let Ok(id) = keeper.duplicate_code(1) {
+                            ids.push(id)
+                        }
+                    }
+                    3 => keeper = std::mem::take(&mut keeper).with_checksum_generator(FixedChecksums),
+                    _ => keeper = std::mem::take(&mut keeper).with_address_generator(cw_multi_test::SimpleAddressGenerator),
+                }
+            }
+        });
+        n += 1;
+        if let Err(p) = r {
+            ctx.violation("c11:panic:configured-keeper", case("panic", json!(p)));
+            continue;
+        }
+        let distinct: BTreeSet<u64> = ids.iter().copied().collect();
+        if distinct.len() != ids.len() || ids.contains(&0) {
+            ctx.violation("c11:code-id-not-unique:configured-keeper", case("ids handed out by the keeper", json!(ids)));
+        }
+        let mut app: RApp = AppBuilder::new().with_storage(SnapStorage::new()).with_wasm(keeper).build(cw_multi_test::no_init);
+        for id in &ids {
+            n += 1;
+            let info = app.wrap().query_wasm_code_info(*id);
+            set_script(init_program(true));
+            let inst = catch(|| app.instantiate_contract(*id, creator.clone(), &NodeMsg { n: 0 }, &[], "l", None));
+            let _ = take_trace();
+            let ok = matches!(&inst, Ok(Ok(_)));
+            if info.is_err() || !ok {
+                ctx.violation("c11:stored-code-unusable:configured-keeper", case("a code stored in the keeper before it was configured", json!({"code_id": id, "code_info": info.map(|i| format!("{:?}", i)).map_err(|e| e.to_string()), "instantiate": format!("{:?}", inst.map(|r| r.map(|a| a.into_string()).map_err(|e| format!("{:#}", e))))})));
+            }
+        }
+        let next_id = app.store_code(Box::new(Puppet { tag: 2 }));
+        let want = ids.iter().copied().max().unwrap_or(0) + 1;
+        n += 1;
+        if next_id != want {
+            ctx.violation("c11:code-id-assignment:configured-keeper", case("next automatic id in the App", json!({"got": next_id, "want": want, "ids_in_use": ids})));
+        }
+    }
+    n
+}
+
 fn colliding_generators(ctx: &Ctx, depth: usize) -> Value {
     let nm = names();
     let api = MockApi::default();
